@@ -126,6 +126,11 @@ pub enum RD {
 }
 
 fn check(v: DecV) -> RD {
+    // far beyond anything a Decimal can hold exactly: do not spend time on exact bookkeeping
+    if !v.is_zero() && (v.scale > 300 || v.n.m.bits() > 6000) {
+        let digits = v.n.m.bits() as f64 * 0.30103;
+        return if digits - v.scale as f64 > 40.0 { RD::Err } else { RD::Unspec("far outside the exactly representable range") };
+    }
     if v.out_of_range() {
         RD::Err
     } else if v.representable() {
@@ -350,11 +355,10 @@ fn pow(x: &DecV, n: &DecV) -> RD {
     let mut r = DecV::from_i64(1);
     for _ in 0..k {
         r = r.mul(x);
-        if r.out_of_range() {
-            return RD::Err;
-        }
-        if !r.representable() {
-            return RD::Unspec("power needs rounding");
+        match check(r.clone()) {
+            RD::Val(_) => {}
+            RD::Err => return RD::Err,
+            _ => return RD::Unspec("power needs rounding"),
         }
     }
     RD::Val(r)
